@@ -78,12 +78,14 @@ def main():
                 if rc != 0:   # context drifted through a later fix: commit in /repo - merge instead
                     rc, out = sh(f"git apply --3way {VERIF}/seeded/{sd}/patch.diff && git reset -q", cwd=f"{w}/repo")
                 if rc != 0:
+                    sh("git reset -q --hard && git clean -fdq", cwd=f"{w}/repo")   # a conflicted merge must not poison the next job on this worker
                     results[job] = {"exit": None, "error": "patch does not apply: " + out[-200:]}
+                    print(f"{sd}: PATCH-DOES-NOT-APPLY", flush=True)
                     return
             try:
                 rc, out = sh(f"./check {pid} --tier {tier}", cwd=f"{w}/verif", env=env)
             finally:
-                sh("git checkout -- . && git clean -fdq", cwd=f"{w}/repo")
+                sh("git reset -q --hard && git clean -fdq", cwd=f"{w}/repo")
             vio = [ln for ln in out.splitlines() if ln.startswith("VIOLATION")]
             details = [ln.strip() for ln in out.splitlines() if ln.strip().startswith(("violation:", "broken:"))][:4]
             res = {"exit": rc, "violation_line": vio[0] if vio else None, "details": [d[:300] for d in details],
